@@ -66,6 +66,31 @@ CHECKS = {
     technique='as C09; the returned set of covers must equal the exhaustively computed set of all minimum prime covers',
     text='cover_enum.minimize on the same problem families: terminates, returns exactly all minimum covers by primes, uniform size, contains cover.minimize\'s cover.',
     note='as C09'),
+ 'C13': dict(
+    category='exploration', design='4/C13',
+    technique='bounded exhaustive execution: every generated program run on every input state of the bit ranges; all 256 three-bit roots emitted and executed in both target syntaxes',
+    text='For a menu of relations (formulas and explicit tables) over signed, unsigned, all-negative and Boolean variables the generated step() is executed on every state with an admissible output and checked against the relation\'s table; dumps_bdd_as_code for all 256 functions of 3 bits (single, shared, complemented) executed on all inputs in Python and, token-mapped, C.',
+    note='relations come from a menu, not from all formulas; the C text is executed after a token mapping rather than compiled'),
+ 'C14': dict(
+    category='exploration', design='4/C14',
+    technique='bounded exhaustive enumeration of all relations over 4 bits x output requests x extraction orders x restrict path x manager',
+    text='All 65536 relations over two input and two output bits (and one input / three outputs) with every output request incl. an ignored bit, both extraction orders, with and without CUDD restrict, CUDD and autoref managers: supports, membership for every solvable input, forced inputs inside the care set.',
+    note='"care set contains the forced inputs" is checked (not equality): the cofactor optimisation enlarges care sets on purpose'),
+ 'C15': dict(
+    category='exploration', design='4/C15',
+    technique='bounded exhaustive enumeration of formulas to depth 2 (+ block of depth 3) x all traces of length 4 / all lassos of size <= 3, tester evolution tabulated per letter pair',
+    text='Every past formula over {p,q} to depth 2 is translated; on every trace the auxiliary variables must have exactly one solution of init/trans and the translated formula must equal the anchored semantics at every position; until-fragment on all small lassos with exactly one periodic prophecy valuation.',
+    note='traces of length 4 (5 thorough) suffice for depth <= 2 testers to leave their initial phase; deeper nesting is only sampled'),
+ 'C16': dict(
+    category='exploration', design='4/C16',
+    technique='bounded exhaustive enumeration of token strings from the documented operator table against a precedence-climbing parser generated from that table',
+    text='All ordered operator pairs (plain and parenthesised), level triples, prefix/postfix interactions, spellings, comments at every boundary: tree equality with the table-generated parser; parse(flatten(t)) = t; split_gr1 on permutations and nestings of GR(1) conjuncts and on a menu of shapes outside the fragment.',
+    note='the table is read from doc/doc.md at run time; junction lists (bulleted /\\ \\/) are not in the documented grammar and are not covered'),
+ 'C19': dict(
+    category='model_checking', design='4/C19',
+    technique='explicit-state exploration: stepper called at every state x input and breadth-first over all admissible input sequences to depth 4; assemblies explored over all orders of colliding component menus',
+    text='AutomatonStepper over synthesized implementations: every state/input answered against the action table (values or ValueError), BFS over all environment sequences; Assembly with mock, Scheduler and real stepper components whose names collide on purpose: local states, mangling, and every recorded step.',
+    note='AutomatonStepper.init returns only the variables its pick assigns; assemblies are driven with initial conditions that mention every component variable'),
 }
 
 NOT_YET = 'check not built yet in this session (design in DESIGN.md section 4); will be claimed once its machinery runs clean on the unchanged tree'
